@@ -106,38 +106,52 @@ def gen_preds(N):
 
 def harnesses(ctx):
     cpp = os.path.join(HERE, 'wrappers.cpp')
-    ctx.write('uf_gen.h', gen_preds(4 if ctx.tier == 'quick' else 5))
     c = [os.path.join(HERE, 'contracts.c')]
-    N = 4 if ctx.tier == 'quick' else 5
+    for n in (3, 4, 5):
+        ctx.write('uf_gen_%d.h' % n, gen_preds(n))
+    hs = harnesses_n(ctx, cpp, c, 4, '')
+    if ctx.prop == 'C28' and ctx.tier == 'quick':
+        keep = ('uf.pack', 'uf.unionNodes', 'uf.unionNodes.seq', 'uf.sameSet.seq', 'uf.makeNode')
+        hs = [h for h in hs if h.name in keep or h.name.startswith('uf.lemma')]
+    if ctx.tier == 'thorough':
+        # forests of 5 nodes for the functions whose obligations finish within the hour (unionNodes at N=5 exceeds 3600 s on every back end)
+        only = ('uf.findNode', 'uf.findNode.seq', 'uf.updateRoot', 'uf.updateRoot.seq', 'uf.sameSet', 'uf.sameSet.seq', 'uf.makeNode')
+        for h in harnesses_n(ctx, cpp, c, 5, '.n5'):
+            base = h.name[:-3]
+            if base in only or base.startswith('uf.lemma'):
+                h.timeout = 3400
+                hs.append(h)
+    return hs
+
+
+def harnesses_n(ctx, cpp, c, N, sfx):
     D = 'souffle::DisjointSet::'
     bnd = {'nodes': N, 'note': 'forests of at most %d nodes; iterations, thread count and schedule unbounded' % N}
+    ob = 10 if N >= 5 else None
     hs = []
-    # L1 bit packing (no bound)
-    hs.append(Harness('uf.pack', 'harness_pack', cpp=cpp, c=c, defines=['VX_N=%d' % N], unwind=None, must_have=['L1'],
-                      clause='L1: b2p/b2r/pr2b are mutually inverse on 56-bit parents and 8-bit ranks', funcs=[D + 'b2p', D + 'b2r', D + 'pr2b']))
+    if N == 4:
+        hs.append(Harness('uf.pack', 'harness_pack', cpp=cpp, c=c, defines=['VX_N=%d' % N], unwind=None, must_have=['L1'],
+                          clause='L1: b2p/b2r/pr2b are mutually inverse on 56-bit parents and 8-bit ranks', funcs=[D + 'b2p', D + 'b2r', D + 'pr2b']))
     for mode, tag in (('', ''), ('VX_SEQ', '.seq')):
         defs = ['VX_N=%d' % N] + ([mode] if mode else [])
         what = 'under interference (rely/guarantee)' if not mode else 'sequential functional contract (silent environment)'
-        hs.append(Harness('uf.findNode' + tag, 'harness_findNode', cpp=cpp, c=c, defines=defs, enforce='h_findNode', unwind=N + 2, bounded=bnd,
+        hs.append(Harness('uf.findNode' + tag + sfx, 'harness_findNode', cpp=cpp, c=c, defines=defs, enforce='h_findNode', unwind=N + 2, bounded=bnd, object_bits=ob,
                           must_have=['postcondition', 'findNode.0 invariant base', 'findNode.0 invariant step', 'G\\.'],
                           clause='findNode %s: returns a node of the same class that was a root at some instant; every own step is a path-halving step keeping INV (no cycles)' % what,
                           funcs=[D + 'findNode', D + 'get']))
-        hs.append(Harness('uf.updateRoot' + tag, 'harness_updateRoot', cpp=cpp, c=c, defines=defs, enforce='h_updateRoot', unwind=max(N + 2, 12), bounded=bnd,
+        hs.append(Harness('uf.updateRoot' + tag + sfx, 'harness_updateRoot', cpp=cpp, c=c, defines=defs, enforce='h_updateRoot', unwind=max(N + 2, 12), bounded=bnd, object_bits=ob,
                           must_have=['postcondition'], clause='updateRoot %s: succeeds only by one CAS on a node that is a root with the expected rank' % what, funcs=[D + 'updateRoot']))
-        hs.append(Harness('uf.unionNodes' + tag, 'harness_unionNodes', cpp=cpp, c=c, defines=defs, enforce='h_unionNodes', replace=['h_findNode'], unwind=max(N + 2, 12), bounded=bnd,
+        hs.append(Harness('uf.unionNodes' + tag + sfx, 'harness_unionNodes', cpp=cpp, c=c, defines=defs, enforce='h_unionNodes', replace=['h_findNode'], unwind=max(N + 2, 12), bounded=bnd, object_bits=ob,
                           must_have=['postcondition', 'unionNodes.0 invariant base', 'unionNodes.0 invariant step', 'G\\.'],
                           clause='unionNodes %s: on return x0 and y0 are in the same class; every merge it performs joins the classes of its own arguments; ranks/links keep INV' % what,
                           funcs=[D + 'unionNodes']))
-        hs.append(Harness('uf.sameSet' + tag, 'harness_sameSet', cpp=cpp, c=c, defines=defs, enforce='h_sameSet', replace=['h_findNode'], unwind=max(N + 2, 12), bounded=bnd,
+        hs.append(Harness('uf.sameSet' + tag + sfx, 'harness_sameSet', cpp=cpp, c=c, defines=defs, enforce='h_sameSet', replace=['h_findNode'], unwind=max(N + 2, 12), bounded=bnd, object_bits=ob,
                           must_have=['postcondition', 'sameSet.0 invariant base', 'sameSet.0 invariant step'],
                           clause='sameSet %s: the answer is correct at some instant during the call' % what, funcs=[D + 'sameSet']))
-    hs.append(Harness('uf.makeNode', 'harness_makeNode', cpp=cpp, c=c, defines=['VX_N=%d' % N, 'VX_SEQ'], enforce='h_makeNode', unwind=max(N + 2, 12), bounded=bnd,
+    hs.append(Harness('uf.makeNode' + sfx, 'harness_makeNode', cpp=cpp, c=c, defines=['VX_N=%d' % N, 'VX_SEQ'], enforce='h_makeNode', unwind=max(N + 2, 12), bounded=bnd,
                       must_have=['postcondition'], clause='makeNode: appends a self-rooted rank-0 node in its own class', funcs=[D + 'makeNode']))
-    if ctx.prop == 'C28' and ctx.tier == 'quick':
-        keep = ('uf.pack', 'uf.unionNodes', 'uf.unionNodes.seq', 'uf.sameSet.seq', 'uf.makeNode')
-        hs = [h for h in hs if h.name in keep]
     for lem in ('evolve_reflexive', 'evolve_transitive', 'guarantee_within_rely', 'inv_acyclic'):
-        hs.append(Harness('uf.lemma.' + lem, 'lemma_' + lem, c=c, defines=['VX_N=%d' % N], unwind=max(N + 2, 12), bounded=bnd, must_have=['lemma'],
+        hs.append(Harness('uf.lemma.' + lem + sfx, 'lemma_' + lem, c=c, defines=['VX_N=%d' % N], unwind=N + 2, bounded=bnd, must_have=['lemma'],
                           clause='rely/guarantee side condition / consequence of INV'))
     return hs
 
@@ -167,7 +181,7 @@ def replay(ctx, h, r, ins, tr):
 
 ASSUMPTIONS = [
     'sequential consistency (memory orders ignored)',
-    'forests of at most N nodes (N=4 quick, 5 thorough) — the only bound; fewer than 2^56 nodes',
+    'forests of at most N nodes (N=4; thorough adds N=5 for findNode/updateRoot/sameSet/makeNode and the lemmas) — the only bound; fewer than 2^56 nodes',
     'PiggyList::get(i) addresses cell i of a fixed node array (proved separately in the piggylist unit for the real PiggyList)',
     'thread composition by the rely/guarantee rule; progress (lock-freedom) is not claimed',
     'no concurrent makeNode while find/union/sameSet run on existing nodes (node count fixed during those calls); makeNode itself is proved sequentially',
